@@ -422,6 +422,45 @@ def mgr_worker(args):
     return viol, dict(stats), inconc
 
 
+RPC_PAYLOADS = {
+    "value": "<query xmlns='jabber:iq:rpc'><methodResponse><params><param><value><i4>7</i4></value></param></params></methodResponse></query>",
+    "two-values": "<query xmlns='jabber:iq:rpc'><methodResponse><params><param><value><string>a</string></value></param><param><value><i4>2</i4></value></param></params></methodResponse></query>",
+    "empty-params": "<query xmlns='jabber:iq:rpc'><methodResponse><params/></methodResponse></query>",
+    "no-params": "<query xmlns='jabber:iq:rpc'><methodResponse/></query>",
+    "fault": "<query xmlns='jabber:iq:rpc'><methodResponse><fault><value><struct><member><name>faultCode</name><value><int>4</int></value></member><member><name>faultString</name><value><string>Too many</string></value></member></struct></value></fault></methodResponse></query>",
+    "empty-query": "<query xmlns='jabber:iq:rpc'/>",
+    "garbage-value": "<query xmlns='jabber:iq:rpc'><methodResponse><params><param><value><i4>not-a-number</i4></value></param><param/></params></methodResponse></query>",
+    "nested-struct": "<query xmlns='jabber:iq:rpc'><methodResponse><params><param><value><array><data><value><struct><member><name>k</name><value><base64>!!!</base64></value></member></struct></value></data></array></value></param></params></methodResponse></query>",
+}
+
+
+def rpc_part(V, stats):
+    """the blocking XML-RPC call (nested event loop in the library), answered from inside the server's reader"""
+    binary = vf.build_harness("wire")
+    cases, names = [], []
+    for name, payload in RPC_PAYLOADS.items():
+        for typ in ("result", "error"):
+            body = payload if typ == "result" else payload + "<error type='cancel'><item-not-found xmlns='urn:ietf:params:xml:ns:xmpp-stanzas'/></error>"
+            steps = [wire.client(managers=["rpc"])] + wire.login_sasl(sm=False) + [dict(op="wait_signal", name="connected"),
+                     dict(op="autoreply", childns="jabber:iq:rpc", xml="<iq type='%s' id='$ID' from='responder@example.org/rpc'>%s</iq>" % (typ, body)),
+                     dict(op="rpcCall", timeout=3000), dict(op="fence")]
+            cases.append(dict(steps=steps, timeout=4000))
+            names.append("%s/%s" % (name, typ))
+    outs, crashes = wire.run_cases(binary, cases)
+    for rq, info in crashes:
+        nm = names[rq["n"]] if rq.get("n") is not None else "?"
+        V.violation("manager crash rpcCall %s" % vf.crash_sig(info), "sanitizer report / abnormal exit while a blocking XML-RPC call was answered (%s)" % nm, {"answer": nm, "stderr": info["stderr"][-3000:]})
+    for out, nm in zip(outs, names):
+        if not out:
+            continue
+        dones = [e for e in out["journal"] if e["ev"] == "rpc_done"]
+        stats["rpc_calls"] += 1
+        if len(dones) != 1:
+            V.violation("manager rpcCall returned-%d-times" % len(dones), "a blocking XML-RPC call did not return exactly once", {"answer": nm})
+        elif any(e["ev"] == "fence_done" for e in out["journal"]):
+            stats["rpc_calls_returned_and_client_alive"] += 1
+
+
 def manager_part(V, tier):
     r = vf.rng("c07-mgr")
     pay = mgr_payloads()
@@ -446,6 +485,7 @@ def manager_part(V, tier):
             V.inconc(i)
         stats.update(st)
     stats["manager_kinds"] = len(MGR_KINDS)
+    rpc_part(V, stats)
     return stats
 
 
@@ -479,5 +519,5 @@ def main(tier, replay=None):
                    "connection loss (resumable), disconnect, reconnect (resumed|new)} with up to 4 requests outstanding: exhaustive words of length <= %d starting with a request over an %d-letter alphabet, plus random words up to length 30; "
                    "every history ends with a non-resumable close; each request's continuation count and value are compared with a request model with accept sets (addressee, absent from) and don't-care classes (case variants, own domain for own account)" % (depth, len(A)),
            "observed": dict(stats), "exhaustive_words": len(words), "samples": [{"word": [list(x) for x in words[min(len(words) - 1, 700)]]}]}
-    floors = {"requests": stats["requests"] > 1000, "results": stats["kind:result"] > 0, "errors": stats["kind:error"] > 0, "nested": stats["nested"] > 0, "manager_requests": stats["manager_requests"] >= 200, "manager_by_reply": stats["manager_completed_by_reply"] >= 100}
+    floors = {"requests": stats["requests"] > 1000, "results": stats["kind:result"] > 0, "errors": stats["kind:error"] > 0, "nested": stats["nested"] > 0, "manager_requests": stats["manager_requests"] >= 200, "manager_by_reply": stats["manager_completed_by_reply"] >= 100, "rpc": stats["rpc_calls_returned_and_client_alive"] >= 10}
     V.finish(cov, "exploration", ["a stanza without from is taken to come from the user's own server (a contact cannot forge that)", "loopback TCP with fences; manager request APIs are covered by the second part when present"], floors)
